@@ -2,12 +2,15 @@ package c11
 
 import (
 	"fmt"
+	"os"
 	"sort"
+	"strconv"
 	"strings"
 	"testing"
 	"time"
 
 	sdk "github.com/cosmos/cosmos-sdk/types"
+	stakingkeeper "github.com/cosmos/cosmos-sdk/x/staking/keeper"
 	stakingtypes "github.com/cosmos/cosmos-sdk/x/staking/types"
 	"pgregory.net/rapid"
 
@@ -52,16 +55,39 @@ func TestPropSuperfluid(t *testing.T) {
 		c.App.MintKeeper.SetMinter(c.Ctx, minttypes.NewMinter(osmomath.ZeroDec()))
 		// validators: the genesis one plus 1-2 more
 		c.H.Ctx = c.Ctx
-		nv := rapid.IntRange(1, 2).Draw(rt, "extraValidators")
-		for i := 0; i < nv; i++ {
-			c.H.SetupValidator(stakingtypes.Bonded)
-		}
-		vals, _ := sk.GetAllValidators(c.Ctx)
+		// (the test helper gives validators random keys: they are listed by role - genesis validator first, then the extra
+		// ones in creation order - so that a saved history addresses the same validators when it is replayed)
 		var valAddrs []string
+		vals, _ := sk.GetAllValidators(c.Ctx)
 		for _, v := range vals {
 			valAddrs = append(valAddrs, v.GetOperator())
 		}
 		sort.Strings(valAddrs)
+		nv := rapid.IntRange(1, 2).Draw(rt, "extraValidators")
+		for i := 0; i < nv; i++ {
+			valAddrs = append(valAddrs, c.H.SetupValidator(stakingtypes.Bonded).String())
+			// the helper creates the validator unbonded (self-bond in the not-bonded pool) and then only flips its status:
+			// move the self-bond to the bonded pool, as the staking end blocker does when a validator enters the set, so
+			// that every bonded token is backed (otherwise a later undelegation can find the bonded pool short)
+			if err := c.App.BankKeeper.SendCoinsFromModuleToModule(c.Ctx, stakingtypes.NotBondedPoolName, stakingtypes.BondedPoolName, sdk.NewCoins(sdk.NewCoin(bond, sdk.DefaultPowerReduction))); err != nil {
+				rt.Fatalf("harness: %v", err)
+			}
+		}
+		if msg, broken := stakingkeeper.ModuleAccountInvariants(sk)(c.Ctx); broken {
+			rt.Fatalf("harness: staking pools are not backed after the validator set-up: %s", msg)
+		}
+		if perm := os.Getenv("VERIF_VAL_PERM"); perm != "" { // debugging aid: replay a history saved before the roles were fixed
+			var p []string
+			for _, ix := range strings.Split(perm, ",") {
+				i, _ := strconv.Atoi(ix)
+				if i < len(valAddrs) {
+					p = append(p, valAddrs[i])
+				}
+			}
+			if len(p) == len(valAddrs) {
+				valAddrs = p
+			}
+		}
 		big := osmomath.NewIntWithDecimal(1, 24)
 		for a := 0; a < 4; a++ {
 			c.Fund(chain.Actor(a), sdk.NewCoins(coin(bond, big), coin("token0", big), coin("uosmo", big), coin("usdc", big)))
@@ -267,7 +293,23 @@ func TestPropSuperfluid(t *testing.T) {
 						continue
 					}
 					if diff.GT(allowed) {
-						rt.Fatalf("intermediary account (%s, %s): staked %s, risk-adjusted value of the %s shares locked through it is %s (allowed drift %s, %d operations since the refresh, justRefreshed=%v) [history %v]", share, val[len(val)-6:], tokens, sum, E, allowed, opsSinceRefresh[k], justRefreshed, hist)
+						exp, eerr := sfk.GetExpectedDelegationAmount(ctx, ia)
+						// why did the module's own refresh not reach its own target? repeat its undelegation step on a branch
+						why := ""
+						if eerr == nil && tokens.GT(exp) {
+							b := c.Branch()
+							sh, verr := b.App.StakingKeeper.ValidateUnbondAmount(b.Ctx, ia.GetAccAddress(), valAddr, tokens.Sub(exp))
+							if verr != nil {
+								why = fmt.Sprintf("; staking refuses to unbond %s: %v", tokens.Sub(exp), verr)
+							} else if _, uerr := b.App.StakingKeeper.InstantUndelegate(b.Ctx, ia.GetAccAddress(), valAddr, sh); uerr != nil {
+								why = fmt.Sprintf("; InstantUndelegate(%s shares) fails: %v", sh, uerr)
+							} else {
+								why = "; the undelegation step succeeds when repeated now"
+							}
+							v, _ := b.App.StakingKeeper.GetValidator(b.Ctx, valAddr)
+							why += fmt.Sprintf(" (validator status %s jailed=%v tokens %s shares %s)", v.Status, v.Jailed, v.Tokens, v.DelegatorShares)
+						}
+						rt.Fatalf("intermediary account (%s, %s): staked %s, risk-adjusted value of the %s shares locked through it is %s (allowed drift %s, %d operations since the refresh, justRefreshed=%v; the module's own expected amount %s (%v), multiplier %s%s) [history %v]", share, val[len(val)-6:], tokens, sum, E, allowed, opsSinceRefresh[k], justRefreshed, exp, eerr, sfk.GetOsmoEquivalentMultiplier(ctx, share), why, hist)
 					}
 				}
 			}
